@@ -24,7 +24,7 @@ import (
 )
 
 func main() {
-	hx.Main(map[string]func(*hx.Ctx){"c06": runC06, "c07": runC07, "c08": runC08, "c12": runC12, "c13": runC13, "c14": runC14, "c15": runC15, "c16": runC16, "c20": runC20})
+	hx.Main(map[string]func(*hx.Ctx){"c11": runC11, "c06": runC06, "c07": runC07, "c08": runC08, "c12": runC12, "c13": runC13, "c14": runC14, "c15": runC15, "c16": runC16, "c20": runC20})
 }
 
 type sys struct {
